@@ -616,7 +616,7 @@ struct Harvest<'a> {
 
 impl<'a> VdafVisitor for Harvest<'a> {
     type Out = ();
-    fn visit<T, P>(self, vdaf: prio::vdaf::prio3::Prio3<T, P, 32>)
+    fn visit<T, P>(self, vdaf: prio::vdaf::prio3::Prio3<T, P, 32>, _typ: T)
     where
         T: TypeBridge + 'static,
         T::Field: FieldBig,
